@@ -1791,6 +1791,116 @@ fn check_c17(st: &mut Stats, k: usize, classes: &[usize], shape: usize, sigil: &
     }
 }
 
+/// Programs in which one parameter is used ONLY below a helper that recurses on a constant counter (depth 3..40: the
+/// deeper ones exceed the evaluator's stack limit, so the use-check may decline - but it may not report the parameter).
+fn deep_helper_programs() -> Vec<(String, Prog, Vec<String>, usize)> {
+    let mut out = vec![];
+    let sigils: [&'static str; 2] = ["*standard-cl-21*", "*standard-cl-23*"];
+    for s in sigils {
+        for depth in [3i64, 8, 12, 16, 20, 25, 40] {
+            for helper in ["count-down-returns-argument", "nth-of-list"] {
+                for ctx in ["alone", "beside-a-direct-use", "in-if-arm-on-another-parameter", "in-let"] {
+                    let h = match helper {
+                        "count-down-returns-argument" => Helper::Fun { name: "deep".into(), inline: false, params: Pat::list(vec![Pat::n("N"), Pat::n("X")]), body: E::If(Box::new(E::v("N")), Box::new(E::call("deep", vec![E::prim("-", vec![E::v("N"), E::int(1)]), E::v("X")])), Box::new(E::v("X"))) },
+                        _ => Helper::Fun { name: "deep".into(), inline: false, params: Pat::list(vec![Pat::n("N"), Pat::n("X")]), body: E::If(Box::new(E::v("N")), Box::new(E::call("deep", vec![E::prim("-", vec![E::v("N"), E::int(1)]), E::prim("r", vec![E::v("X")])])), Box::new(E::prim("f", vec![E::v("X")]))) },
+                    };
+                    let call = E::call("deep", vec![E::int(depth), E::v("p1")]);
+                    let body = match ctx {
+                        "alone" => call,
+                        "beside-a-direct-use" => E::prim("c", vec![E::v("p2"), call]),
+                        "in-if-arm-on-another-parameter" => E::If(Box::new(E::v("p2")), Box::new(call), Box::new(E::int(9))),
+                        _ => E::Let(LetKind::Let, vec![("L".to_string(), call)], Box::new(E::prim("c", vec![E::v("L"), E::v("p2")]))),
+                    };
+                    let names: Vec<String> = vec!["p0".into(), "p1".into(), "p2".into()];
+                    let prog = Prog { sigil: Some(s), params: Pat::list(names.iter().map(|n| Pat::n(n)).collect()), helpers: vec![h], body };
+                    out.push((format!("{}/{}/depth{}", helper, ctx, depth), prog, names, 1));
+                }
+            }
+        }
+    }
+    out
+}
+
+fn check_c17_deep(st: &mut Stats, tag: &str, prog: &Prog, names: &[String], sigil: &'static str) {
+    st.eval();
+    let text = prog.text();
+    let replay = json!({"kind": "c17", "text": text, "sigil": sigil});
+    let reported = match unused_report(&text, sigil) {
+        Ok(r) => r,
+        Err(e) => {
+            if e.starts_with("PANIC") {
+                st.violation("usecheck-panic", format!("{}: {}", text, e), text.len(), replay);
+            } else {
+                st.outcome("usecheck-declined(no claim)");
+            }
+            return;
+        }
+    };
+    let code = match modern_compile(&text, dialect_of(sigil), &entry_option_sets(sigil)[0].1) {
+        Ok(c) => c.code,
+        Err(_) => {
+            st.outcome("compile-rejected(no claim)");
+            return;
+        }
+    };
+    st.outcome(&format!("reported-unused:{}", reported.len()));
+    let long = |base: i64| T::list(&(0..48).map(|i| T::int(base + i)).collect::<Vec<_>>());
+    let alpha = [T::nil(), T::int(5), long(100), long(300)];
+    let k = names.len();
+    let total = (alpha.len() as u64).pow(k as u32);
+    let outcomes: Vec<Out> = (0..total)
+        .map(|v| {
+            let mut vals = std::collections::HashMap::new();
+            for (i, n) in names.iter().enumerate() {
+                vals.insert(n.clone(), alpha[((v / (alpha.len() as u64).pow(i as u32)) % alpha.len() as u64) as usize].clone());
+            }
+            match consensus(&code, &fill_pat(&prog.params, &vals)) {
+                Out::Err(_) => Out::Err("fails".to_string()),
+                o => o,
+            }
+        })
+        .collect();
+    for r in &reported {
+        let i = match names.iter().position(|n| n == r) {
+            Some(i) => i,
+            None => {
+                st.violation("reports-unknown-name", format!("{}: reported unused parameter {:?} is not a parameter", text, r), text.len(), replay.clone());
+                continue;
+            }
+        };
+        let stride = (alpha.len() as u64).pow(i as u32);
+        let mut influenced = None;
+        let mut pairs = 0u64;
+        for v in 0..total {
+            if (v / stride) % alpha.len() as u64 != 0 {
+                continue;
+            }
+            for d in 1..alpha.len() as u64 {
+                pairs += 1;
+                if outcomes[v as usize] != outcomes[(v + d * stride) as usize] {
+                    influenced = Some((v, v + d * stride));
+                }
+            }
+        }
+        st.count("non-interference-pairs-checked", pairs);
+        match influenced {
+            None => {
+                st.outcome("unused-confirmed");
+                st.nontrivial(&(&text, r));
+            }
+            Some((a, b)) => st.violation(
+                &format!("reported-unused-but-influences/deep-helper/{}", tag.rsplit_once('/').map(|x| x.0).unwrap_or(tag)),
+                format!("{}: parameter {} is reported unused, but valuations #{} and #{} differing only in it give {} and {}", text, r, a, b, outcomes[a as usize].short(), outcomes[b as usize].short()),
+                text.len(),
+                replay.clone(),
+            ),
+        }
+    }
+    if !reported.contains(&"p1".to_string()) {
+        st.count("deep-parameter-not-reported", 1);
+    }
+}
+
 pub fn c17(thorough: bool, replay: Option<String>) -> i32 {
     let mut rep = Report::new("C17", if thorough { "thorough" } else { "quick" }, "exploration");
     rep.rule = "programs with k lower-case parameters in flat, nested and dotted parameter lists where each parameter is independently in one of 18 usage classes (direct; only through a defun / an inline / a let / a lambda capture; only under a condition on another parameter; only as the argument of a raise; not at all; and inside conditionals nested in conditionals: in an else-if arm, in a nested then-arm, in an `if` used as a condition, in a conditional helper called as a whole arm, after a chain of assertions; through one conditional helper shared by several parameters; through a recursive function; let-bound and used in an `if` arm; in an `if` arm next to a multi-byte operator; as the &rest tail of a primitive): ALL 18^k assignments for k <= 3 (thorough: k = 4 as well), 3 list shapes, 2 sigils. \
@@ -1834,6 +1944,14 @@ pub fn c17(thorough: bool, replay: Option<String>) -> i32 {
         let (k, classes, shape, s, policy) = &plan[i as usize];
         check_c17(st, *k, classes, *shape, s, *policy);
     });
+    {
+        let deep = deep_helper_programs();
+        let (dst, dcap) = par_range(deep.len() as u64, 8, cap, || (), |_, st, i| {
+            let (tag, prog, names, _) = &deep[i as usize];
+            check_c17_deep(st, tag, prog, names, prog.sigil.unwrap());
+        });
+        rep.add_sub("deep-helper-chains", "a parameter used ONLY below a helper that recurses on a constant counter, depth 3, 8, 12, 16, 20, 25, 40 (the deeper ones exceed the partial evaluator's stack limit: the check may decline, it may not report the parameter) x 2 helper shapes x 4 contexts x 2 sigils; valuations over {(), 5, two 48-element lists} for all three parameters, all pairs differing in the reported one", deep.len() as u64, true, dcap, dst);
+    }
     rep.add_sub("usage-classes", &format!("all 18^k usage-class assignments for k = 1..{} x 3 parameter-list shapes x 2 sigils x 4 parameter-name policies (p0 p1 ..; names sorting after q; alternating a../z..; names that are prefixes of each other - the last three for k <= 2 in the quick tier) ({} programs), each with all 3^k valuations", maxk, n), n, true, capped, st);
     rep.finish()
 }
